@@ -107,11 +107,15 @@ def crash_oracle(hr: dsgen.HistoryRunner, tracker: VersionTracker, lower: dict,
         if not os.path.isfile(full):
             raise Violation("C06", "reachable_shard_missing",
                             f"{where}: {sh['path']}")
-        if sh["hashes"]:
+        if st["hashes"]:
+            # (algorithms are configured: a reachable shard listed without
+            # its checksums does not "match its recorded checksums" either)
             real = [file_digest(full, a) for a in st["hashes"]]
             if real != list(sh["hashes"]):
                 raise Violation("C06", "reachable_shard_checksum_mismatch",
-                                f"{where}: {sh['path']}")
+                                f"{where}: {sh['path']}" +
+                                ("" if sh["hashes"] else
+                                 " is listed without checksums"))
     # 3. iteration: whole examples, only written ones, nothing committed lost
     for split in set(info.get("splits", {})) | set(lower):
         try:
